@@ -549,3 +549,39 @@ func CanonPropMax(rel []Released, keys ...int) string {
 	}
 	return sb.String()
 }
+
+// CanonRoutes is the part of a state that no record shows: by which routes (single request, batch, generic batch, second
+// instance, ...) signatures were released for each key since the process last started, and by which route last. States
+// that agree in their records but were reached by different routes are kept apart, so that whatever an implementation
+// remembers per route (a cache that one path fills and another reads) cannot hide behind state matching.
+func CanonRoutes(path []SOp, rel []Released, keys ...int) string {
+	since := 0
+	for i, o := range path {
+		if o.Kind == "restart" {
+			since = i
+		}
+	}
+	var sb strings.Builder
+	for _, k := range keys {
+		set := map[string]bool{}
+		last := ""
+		for _, r := range rel {
+			if r.Key != k || r.Step < since || r.Step >= len(path) {
+				continue
+			}
+			kind := path[r.Step].Kind
+			if kind == "atts" && len(path[r.Step].Ents) == 1 {
+				kind = "atts1"
+			}
+			set[kind] = true
+			last = kind
+		}
+		var l []string
+		for kind := range set {
+			l = append(l, kind)
+		}
+		sort.Strings(l)
+		fmt.Fprintf(&sb, "%c{%s;last=%s}", 'A'+k, strings.Join(l, ","), last)
+	}
+	return sb.String()
+}
